@@ -48,6 +48,11 @@ theorem HQ.ioRead {w w' : World} {n : Nat} {r : ReadRes} (heq : w.ioRead n = (w'
 
 theorem HQ.hd (w : World) (h : HQ H w) : HQ H w.handleDisconnect := HQ.step hc h (Prim.handleDisconnect _) rfl
 
+theorem HQ.df (w : World) (ctx : StepCtx) (h : HQ H w) : HQ H (w.discFail ctx) := by
+  rcases discFail_cases w ctx with ⟨e, _⟩ | ⟨e, _⟩ <;> rw [e]
+  · exact h
+  · exact HQ.hd hc _ h
+
 omit hc in
 theorem deliver_log (w : World) (n : String) (len : Nat) : (w.deliver n len).log = w.log := by
   unfold World.deliver
@@ -155,7 +160,7 @@ theorem hstep_doStepWrite (fuel : Nat) (ih : HMachine H fuel) :
   simp only [doStepWrite]
   split
   · rename_i w' heq; exact (h.ioWrite heq).eq rfl rfl
-  · rename_i w' heq; exact (h.ioWrite heq).eq rfl rfl
+  · rename_i w' heq; exact (HQ.df hc _ _ (h.ioWrite heq)).eq rfl rfl
   · rename_i w' k heq; exact (HQ.hd hc _ (h.ioWrite heq)).eq rfl rfl
   · rename_i w' count heq
     have h2 : HQ H (w'.setWritten pkt (wr + count) len) := hc.done w' pkt (wr + count) len (h.ioWrite heq)
@@ -163,20 +168,19 @@ theorem hstep_doStepWrite (fuel : Nat) (ih : HMachine H fuel) :
     · exact i5 _ _ _ h2
     · exact i4 _ _ _ _ h2
 
-omit hc in
 theorem hstep_performStep (fuel : Nat) (ih : HMachine H fuel) :
     ∀ w ctx step now, HQ H w → HQ H (performStep (fuel + 1) w ctx step now) := by
   intro w ctx step now h
   obtain ⟨_, _, i3, i4, i5, _⟩ := ih
   simp only [performStep]
   split
-  · exact h.eq rfl rfl
+  · exact (HQ.df hc _ _ h).eq rfl rfl
   · exact i5 _ _ _ h
   · split
-    · exact h.eq rfl rfl
+    · exact (HQ.df hc _ _ h).eq rfl rfl
     · exact i4 _ _ _ _ h
   · split
-    · exact h.eq rfl rfl
+    · exact (HQ.df hc _ _ h).eq rfl rfl
     · exact i3 _ _ _ _ _ _ _ h
 
 theorem hstep_flushLoop (fuel : Nat) (ih : HMachine H fuel) :
@@ -185,7 +189,7 @@ theorem hstep_flushLoop (fuel : Nat) (ih : HMachine H fuel) :
   obtain ⟨_, i2, _, _, _, i6, _⟩ := ih
   simp only [flushLoop]
   split
-  · exact h.eq rfl rfl
+  · exact (HQ.df hc _ _ h).eq rfl rfl
   · rename_i w' heq
     have h' := HQ.maybeQueuePingreq hc heq h
     split
@@ -435,7 +439,7 @@ theorem hmachine : ∀ fuel, HMachine H fuel := by
   induction fuel with
   | zero => exact hmachine_zero
   | succ fuel ih =>
-    exact ⟨hstep_flushLoop hc fuel ih, hstep_performStep fuel ih, hstep_doStepWrite hc fuel ih,
+    exact ⟨hstep_flushLoop hc fuel ih, hstep_performStep hc fuel ih, hstep_doStepWrite hc fuel ih,
       hstep_doStepFlush hc fuel ih, hstep_stepReturned fuel ih, hstep_afterFlush hc fuel ih,
       hstep_doLocalWrite hc fuel ih, hstep_doLocalFlush hc fuel ih, hstep_doConnRead hc fuel ih,
       hstep_driveLoop hc fuel ih, hstep_driveAfterService hc fuel ih, hstep_driveEnter fuel ih,
